@@ -38,7 +38,9 @@ type ClientOperationTemplate struct {
 	Headers []ClientOperationHeaderTemplate
 
 	IsRequestBody bool
-	IsBodyReader  bool
+	// IsRequestBodyArray - the JSON body is an inline, non-nullable array: a nil slice is sent as [].
+	IsRequestBodyArray bool
+	IsBodyReader       bool
 	// BodyContentType - media type of the request body the client sends.
 	BodyContentType string
 
@@ -61,8 +63,11 @@ func NewClientOperation(o *Operation) ClientOperationTemplate {
 	}
 
 	if requestBody, ok := o.Operation.RequestBody.Get(); ok {
-		if requestBody.Value().Content.Has("application/json") {
+		if jsonContent, ok := requestBody.Value().Content.Get("application/json"); ok {
 			c.IsRequestBody = true
+			if sch := jsonContent.V.Schema; sch != nil && sch.Ref() == nil && sch.Value().Type == "array" && !sch.Value().Nullable {
+				c.IsRequestBodyArray = true
+			}
 			c.BodyContentType = "application/json"
 		} else if len(requestBody.Value().Content.List) > 0 {
 			c.IsBodyReader = true
